@@ -301,11 +301,30 @@ def _decoy(M, w, **kw):
         pass
 
 
+def _adopted(M, w, right, **kw):
+    """an instance constructed with OTHER filters of the same lengths that then takes over the state of the intended
+    one through the standard API (load_state_dict) and goes through a dtype round trip that is exact for its values
+    (.float().double() when every buffer is float32-exact): a module IS its state, whatever it was constructed with"""
+    try:
+        w2 = tuple(np.asarray(f, dtype=np.float64).ravel()[::-1] * 2.0 + 1.0 for f in w)
+        other = M(wave=w2, **kw)
+        sd = right.state_dict()
+        if not sd or any(a.shape != b.shape for a, b in zip(other.state_dict().values(), sd.values())):
+            return right
+        other.load_state_dict({k: v.clone() for k, v in sd.items()})
+        fl = [v for v in other.state_dict().values() if v.is_floating_point()]
+        if fl and all(v.dtype == torch.float64 for v in fl) and all(bool((v.float().double() == v).all()) for v in fl):
+            other.float(); other.double()
+        return other
+    except Exception:
+        return right
+
+
 def _build(M, w, **kw):
     order = 0
     if not isinstance(w, str) and os.environ.get('VERIF_NO_TWINS') != '1':
         try:
-            order = 1 + _hashlib.sha1(repr([np.asarray(f).tolist() for f in w]).encode()).digest()[2] % 3     # 1: twin first, 2: twin after, 3: none
+            order = 1 + _hashlib.sha1(repr([np.asarray(f).tolist() for f in w]).encode()).digest()[2] % 3     # 1: twin first, 2: twin after, 3: the instance adopts its state from another one
         except Exception:
             order = 0
     if order == 1:
@@ -313,6 +332,8 @@ def _build(M, w, **kw):
     mod = M(wave=w, **kw)
     if order == 2:
         _twin(M, w, **kw)
+    if order == 3:
+        mod = _adopted(M, w, mod, **kw)
     if os.environ.get('VERIF_NO_TWINS') != '1':
         _decoy(M, w, **kw)
     _scribble(w)
